@@ -2,16 +2,23 @@
 import json, os
 V = os.path.dirname(os.path.dirname(os.path.abspath(__file__)))
 rows = []
+rp = os.path.join(V, 'seeded', 'RESULTS.json')
+latest = json.load(open(rp)) if os.path.exists(rp) else {}
 for d in sorted(os.listdir(os.path.join(V, 'seeded'))):
+    if not os.path.isdir(os.path.join(V, 'seeded', d)):
+        continue
     m = json.load(open(os.path.join(V, 'seeded', d, 'meta.json')))
     cl = lambda s, n: ' '.join(str(s).split())[:n].replace('|', '/')
-    rows.append('| %s | %s | %s | %s | %s |' % (d, cl(m.get('summary', ''), 170), cl(m.get('needs_to_manifest', ''), 150), m['detected_by']['check'], cl(m['detected_by']['how'], 260)))
+    rows.append('| %s | %s | %s | %s | %s | %s |' % (d, cl(m.get('summary', ''), 170), cl(m.get('needs_to_manifest', ''), 150), m['detected_by']['check'], cl(m['detected_by']['how'], 260),
+                                                    latest.get(d, {}).get('status', '-')))
 text = ['### 0.2 Seeded changes (independent sub-agents given the property text only; `/verif/seeded/<id>/`) and what catches them', '',
         'Each change compiles, leaves the pinned suite at 188 passed / 1 failed / 4 collection errors (the baseline), and comes with a demonstration that fails '
         'with it and passes without it; all of that was re-verified by `harness/seedverify.sh` in a fresh worktree (recorded in each `meta.json`). '
         '`harness/seedrun.sh <patch> <checks>` applies a change to a scratch worktree of /repo and runs the quick checks against it (`PI2_REPO`). '
-        '"MISSED before" marks changes that the first version of a check did not catch; the strengthening that followed is named in the cell and described in `notes/Cxx.md`.', '',
-        '| seed | change | needs | check | signature / how it is caught |', '|---|---|---|---|---|'] + rows
+        '"MISSED before" marks changes that the first version of a check did not catch; the strengthening that followed is named in the cell and described in `notes/Cxx.md`. '
+        'Last column: the latest regression run over the whole corpus (`harness/reseedall.py`, after the deepening and robustness rounds; `seeded/RESULTS.json`): '
+        '"CAUGHT concrete" = a VIOLATION with a concrete failing input, "CAUGHT no-failing-input-found" = only a broken proof/correspondence.', '',
+        '| seed | change | needs | check | signature / how it is caught | latest regression run |', '|---|---|---|---|---|---|'] + rows
 p = os.path.join(V, 'DESIGN.md')
 s = open(p).read()
 b, e = '<!-- SEEDED-BEGIN -->', '<!-- SEEDED-END -->'
